@@ -4,5 +4,10 @@ set -e
 cd "$(dirname "$0")"
 export CARGO_NET_OFFLINE=true
 cp /repo/Cargo.lock harness/Cargo.lock
-(cd lean && lake build)
+cp /repo/Cargo.lock rs2lean/Cargo.lock
+# translator: regenerate lean/RxModel/Gen/*.lean from the current /repo/src (a failure here is reported by the
+# checks as a broken tie, it must not stop the setup)
+(cd rs2lean && cargo build --release --offline)
+./rs2lean/target/release/rs2lean /repo/src lean/RxModel/Gen || echo "rs2lean: some observers could not be translated"
+(cd lean && lake build) || { echo "lake build: failures (reported per property by ./check)"; (cd lean && lake build rxdriver); }
 (cd harness && cargo build --release --offline)
